@@ -32,7 +32,13 @@ func (ex *Exec) ghostRead(p *Path, kind, name, sort string) string {
 			p.heap[key] = ex.c.Fresh("H:"+key, "(Array Ref "+sort+")")
 		}
 	}
-	return "(select " + ex.heapArr(p, key, sort) + " null)"
+	arr := ex.heapArr(p, key, sort)
+	if rec, ok := ex.ghostTerms[arr]; ok {
+		// the cell was last written by ghostWrite: read the written value instead of selecting from the store term
+		// (select-of-store chains otherwise double with every event)
+		return rec.val
+	}
+	return "(select " + arr + " null)"
 }
 
 func (ex *Exec) ghostWrite(p *Path, kind, name, sort, val string) {
@@ -42,8 +48,21 @@ func (ex *Exec) ghostWrite(p *Path, kind, name, sort, val string) {
 			p.heap[key] = ex.c.Fresh("H:"+key, "(Array Ref "+sort+")")
 		}
 	}
-	p.heap[key] = "(store " + ex.heapArr(p, key, sort) + " null " + val + ")"
+	// ghost cells live at the single address null: a store overrides every earlier store, so the new term is built on the
+	// base array, not on the previous store
+	base := ex.heapArr(p, key, sort)
+	if rec, ok := ex.ghostTerms[base]; ok {
+		base = rec.base
+	}
+	nt := "(store " + base + " null " + val + ")"
+	if ex.ghostTerms == nil {
+		ex.ghostTerms = map[string]ghostRec{}
+	}
+	ex.ghostTerms[nt] = ghostRec{base: base, val: val}
+	p.heap[key] = nt
 }
+
+type ghostRec struct{ base, val string }
 
 // havocGhostBody forgets the ghost cells of the events a loop body may raise.
 func (ex *Exec) havocGhostBody(p *Path, body ast.Node) {
@@ -185,11 +204,25 @@ func (ex *Exec) atCallObligations(p *Path, name string, args []Value, pos token.
 	if ex.contract == nil || len(ex.inlineStack) > 0 && !ex.inClosureOfUnit() {
 		return
 	}
+	variadic := append([]Value(nil), ex.lastVariadic...)
 	for i, ac := range ex.contract.AtCall {
 		if ac.Callee != name {
 			continue
 		}
 		saved := map[string]*Value{}
+		if strings.Contains(ac.Clause.Text, "line") {
+			// `line`: the text a printer call emits - P(a, b, ...) prints the %v renderings of its arguments one after the
+			// other; a printf-style printer p(format, a, ...) prints the formatted text
+			if lv, ok := ex.printedLine(p, name, args, variadic); ok {
+				if old, ok := p.names["line"]; ok {
+					o := old
+					saved["line"] = &o
+				} else {
+					saved["line"] = nil
+				}
+				p.names["line"] = lv
+			}
+		}
 		for j, a := range args {
 			k := fmt.Sprintf("arg%d", j)
 			if old, ok := p.names[k]; ok {
@@ -217,6 +250,43 @@ func (ex *Exec) atCallObligations(p *Path, name string, args []Value, pos token.
 }
 
 func (ex *Exec) inClosureOfUnit() bool { return false }
+
+// textEventNames: every "P:<substring>" event of a P call (the substrings the contract under verification names).
+func (ex *Exec) textEventNames(call *ast.CallExpr) []string {
+	var out []string
+	if call == nil {
+		return out
+	}
+	runs := ex.literalRuns(call)
+	for _, want := range ex.pEvents {
+		for _, r := range runs {
+			if strings.Contains(r, want) {
+				out = append(out, "P:"+want)
+				break
+			}
+		}
+	}
+	return out
+}
+
+// printedLine models the text of one printer call (see atCallObligations).
+func (ex *Exec) printedLine(p *Path, name string, args []Value, variadic []Value) (Value, bool) {
+	strT := types.Typ[types.String]
+	if name == "P" || strings.HasPrefix(name, "P:") {
+		var parts []string
+		for _, v := range variadic {
+			parts = append(parts, ex.fmtVerb(p, 'v', v))
+		}
+		ex.c.Trust("protogen GeneratedFile.P: prints the %v renderings of its arguments one after the other, then a newline")
+		return Value{concatT(parts), strT}, true
+	}
+	if len(args) >= 1 && ex.c.SortOf(args[0].Ty) == "String" {
+		if _, ok := smtStringLiteral(args[0].T); ok {
+			return Value{ex.sprintf(p, args[0], variadic, nil), strT}, true
+		}
+	}
+	return Value{}, false
+}
 
 // eventName decides whether a call is an event and under which name.
 func (ex *Exec) eventName(fn *types.Func, call *ast.CallExpr) (string, bool) {
